@@ -35,7 +35,7 @@ func (valdec sliceDecoder) Decode(dec *Decoder, p interface{}, tag byte) {
 	case TagEmpty:
 		setSliceHeader(reflect2.PtrOf(p), valdec.empty, 0)
 	case TagList:
-		count := dec.ReadInt()
+		count := dec.ReadCount()
 		slice := reflect2.PtrOf(p)
 		valdec.t.UnsafeGrow(slice, count)
 		dec.AddReference(p)
